@@ -122,19 +122,21 @@ def _alarm(signum, frame):
 
 def work(job):
     from nmfu_api import compile_program
-    signal.signal(signal.SIGALRM, _alarm)
-    signal.alarm(20)
+    # the budget is CPU time of this worker (the machine may be busy): 90 s, where the slowest diagnosable
+    # source of the population (/a{1000}/, quadratic subset construction, then the recursion limit) needs 19 s alone
+    signal.signal(signal.SIGVTALRM, _alarm)
+    signal.setitimer(signal.ITIMER_VIRTUAL, 90)
     try:
         o = compile_program(job["src"], job["args"])
-        signal.alarm(0)
+        signal.setitimer(signal.ITIMER_VIRTUAL, 0)
         kind, msg = o.kind, o.msg
     except Timeout:
-        kind, msg = "timeout", "compilation did not finish within 20 s"
+        kind, msg = "timeout", "compilation did not finish within 90 s of CPU time"
     except RecursionError:
-        signal.alarm(0)
+        signal.setitimer(signal.ITIMER_VIRTUAL, 0)
         kind, msg = "internal", "RecursionError"
     finally:
-        signal.alarm(0)
+        signal.setitimer(signal.ITIMER_VIRTUAL, 0)
     if "<<unrenderable" in msg:
         kind = "unrenderable"
     return {"name": job["name"], "kind": kind, "msg": msg[:300]}
@@ -172,7 +174,7 @@ def main():
     top = sorted(msgs.items(), key=lambda kv: -kv[1])[:25]
     ck.samples = [{"program": jobs[0]["src"], "args": jobs[0]["args"], "outcome": results[0]["kind"]}]
     ck.finish({"evaluations": len(jobs), "distinct_nontrivial": len({j["src"] for j in jobs}),
-               "rule": "edge-case programs assembled from declaration / statement fragments aimed at semantic corner cases (plus nesting) and the generic generator's programs, each under a random option set and a 20 s alarm; distinct sources",
+               "rule": "edge-case programs assembled from declaration / statement fragments aimed at semantic corner cases (plus nesting) and the generic generator's programs, each under a random option set and a 90 s CPU-time limit; distinct sources",
                "stats": {"outcomes": kinds, "diagnosed_error_kinds_top": top},
                "explanation": "whole-compiler totality is explored; theorems cover the modelled functions only"})
 
